@@ -315,9 +315,14 @@ pub fn run(rep: &mut Report) {
     let stats = sweep(&fam, |st, i, spec| {
         watch_begin(i as u64, 1);
         on_both_backends(st, spec, None);
+        // the same diagram with its edges inserted in the opposite order: every adjacency list is reversed (rules that
+        // take "the first neighbour such that ..." see a different vertex first)
+        let mut rev = spec.clone();
+        rev.edges.reverse();
+        on_both_backends(st, &rev, None);
         watch_end();
     });
-    rep.absorb("targeted", "local-complementation stars, pivot double stars and gadget pairs with shared neighbourhoods (sizes the generic family cannot reach)", true, None, t0, stats);
+    rep.absorb("targeted", "local-complementation stars, pivot double stars, gadget pairs with shared neighbourhoods (supports with and without outputs, leaf wired first or last), gadget groups and interacting gadget groups, each also with all edges inserted in the opposite order", true, None, t0, stats);
 }
 
 /// Rule-targeted neighbourhood families: stars, double stars, gadget pairs.
@@ -424,26 +429,40 @@ pub fn targeted_family(k: usize) -> Vec<DiagSpec> {
             for s1 in 0..(1u32 << m) {
                 for (l0, l1) in [((1i16, 4i16), (1i16, 4i16)), ((1, 4), (3, 4)), ((1, 2), (1, 1)), ((0, 1), (1, 4))] {
                     for hubph in [(0i16, 1i16), (1, 1)] {
-                        let mut d = DiagSpec::empty();
-                        let h0 = d.add(1, hubph);
-                        let h1 = d.add(1, (0, 1));
-                        let a = d.add(1, l0);
-                        let b = d.add(1, l1);
-                        d.edges.push((h0, a, true));
-                        d.edges.push((h1, b, true));
-                        let ns: Vec<u8> = (0..m).map(|i| d.add(1, [(0, 1), (1, 4), (1, 2)][i % 3])).collect();
-                        for i in 0..m {
-                            if (s0 >> i) & 1 == 1 {
-                                d.edges.push((h0, ns[i], true));
+                        // variants: which supports carry an output (all / none / all but the first: a support without an
+                        // output can have the two hubs as its only neighbours), and whether the leaf is wired before or
+                        // after the supports (the order of a hub's adjacency list)
+                        for variant in 0..(if m == 0 { 1 } else { 6 }) {
+                            let (outs, leaf_last) = (variant % 3, variant >= 3);
+                            let mut d = DiagSpec::empty();
+                            let h0 = d.add(1, hubph);
+                            let h1 = d.add(1, (0, 1));
+                            let a = d.add(1, l0);
+                            let b = d.add(1, l1);
+                            if !leaf_last {
+                                d.edges.push((h0, a, true));
+                                d.edges.push((h1, b, true));
                             }
-                            if (s1 >> i) & 1 == 1 {
-                                d.edges.push((h1, ns[i], true));
+                            let ns: Vec<u8> = (0..m).map(|i| d.add(1, [(0, 1), (1, 4), (1, 2)][i % 3])).collect();
+                            for i in 0..m {
+                                if (s0 >> i) & 1 == 1 {
+                                    d.edges.push((h0, ns[i], true));
+                                }
+                                if (s1 >> i) & 1 == 1 {
+                                    d.edges.push((h1, ns[i], true));
+                                }
+                                if outs == 0 || (outs == 2 && i > 0) {
+                                    let bb = d.add(0, (0, 1));
+                                    d.edges.push((ns[i], bb, false));
+                                    d.outputs.push(bb);
+                                }
                             }
-                            let bb = d.add(0, (0, 1));
-                            d.edges.push((ns[i], bb, false));
-                            d.outputs.push(bb);
+                            if leaf_last {
+                                d.edges.push((h0, a, true));
+                                d.edges.push((h1, b, true));
+                            }
+                            out.push(d);
                         }
-                        out.push(d);
                     }
                 }
             }
